@@ -3,6 +3,7 @@ package server
 import (
 	"context"
 	"fmt"
+	"io"
 	"math/rand"
 	"path/filepath"
 	"strconv"
@@ -426,10 +427,19 @@ func (p *partition) Subscribe(ctx context.Context, req *client.SubscribeRequest)
 	// the end of the log, which is not a requested range that can be invalid:
 	// starting at or beyond the end simply ends with the readonly status.
 	if req.StopPosition != client.StopPosition_STOP_ON_CANCEL &&
-		stopOffset != waitForNewMessages && stopOffset < startOffset {
-		return nil, status.New(
-			codes.InvalidArgument, fmt.Sprintf("Stop offset is before start offset: %d < %d",
-				stopOffset, startOffset))
+		stopOffset != waitForNewMessages {
+		// A reverse subscription reads from the start offset down to the stop
+		// offset.
+		if !req.Reverse && stopOffset < startOffset {
+			return nil, status.New(
+				codes.InvalidArgument, fmt.Sprintf("Stop offset is before start offset: %d < %d",
+					stopOffset, startOffset))
+		}
+		if req.Reverse && stopOffset > startOffset {
+			return nil, status.New(
+				codes.InvalidArgument, fmt.Sprintf("Stop offset is after start offset: %d > %d",
+					stopOffset, startOffset))
+		}
 	}
 
 	// Cancel previous group subscriber if there was one.
@@ -447,7 +457,12 @@ func (p *partition) Subscribe(ctx context.Context, req *client.SubscribeRequest)
 	)
 
 	if req.Reverse {
-		reader, err = p.log.NewReverseReader(startOffset, false)
+		var reverseReader *commitlog.ReverseReader
+		reverseReader, err = p.log.NewReverseReader(startOffset, false)
+		if err == nil && stopOffset != waitForNewMessages {
+			reverseReader.SetStopOffset(stopOffset)
+		}
+		reader = reverseReader
 	} else {
 		// A start offset beyond the end of the log means the next message to
 		// be written.
@@ -516,6 +531,10 @@ func (p *partition) newSubscribeLoop(ctx context.Context, groupID string, sub *s
 				} else if err == commitlog.ErrCommitLogReadonly {
 					// Partition was set to readonly while subscribed.
 					s = status.New(codes.ResourceExhausted, "End of readonly partition")
+				} else if reverse && err == io.EOF {
+					// A reverse subscription read past its stop offset or the
+					// oldest message.
+					s = status.New(codes.ResourceExhausted, "End of reverse subscription")
 				} else {
 					s = status.Convert(err)
 				}
@@ -649,7 +668,7 @@ func (p *partition) getStopOffset(req *client.SubscribeRequest) (int64, *status.
 	switch req.StopPosition {
 	case client.StopPosition_STOP_ON_CANCEL:
 		stopOffset = waitForNewMessages
-		if p.log.IsReadonly() {
+		if p.log.IsReadonly() && !req.Reverse {
 			stopOffset = p.log.NewestOffset()
 		}
 	case client.StopPosition_STOP_OFFSET:
